@@ -317,6 +317,49 @@ XalanNamespacesStack::getNamespaceForPrefix(const XalanDOMString&   thePrefix) c
 
 
 
+const XalanDOMString*
+XalanNamespacesStack::getPrefixForNamespace(const XalanDOMString&   theURI) const
+{
+    if (m_stackPosition == m_stackBegin)
+    {
+        return 0;
+    }
+    else
+    {
+        NamespacesStackType::const_iterator     theBegin(m_stackBegin);
+        NamespacesStackType::const_iterator     theEnd(m_stackPosition + 1);
+
+        // Search from the innermost context outwards, and ignore any prefix
+        // that a nearer declaration has bound to another namespace...
+        do
+        {
+            const value_type&   theEntry = *(--theEnd);
+
+            const value_type::const_reverse_iterator    theEntryEnd = theEntry.rend();
+
+            for (value_type::const_reverse_iterator i = theEntry.rbegin(); i != theEntryEnd; ++i)
+            {
+                const XalanNamespace&   ns = *i;
+
+                if (equals(ns.getURI(), theURI) == true)
+                {
+                    const XalanDOMString* const     theBoundURI =
+                        getNamespaceForPrefix(ns.getPrefix());
+
+                    if (theBoundURI != 0 && equals(*theBoundURI, theURI) == true)
+                    {
+                        return &ns.getPrefix();
+                    }
+                }
+            }
+        } while(theBegin != theEnd);
+
+        return 0;
+    }
+}
+
+
+
 bool
 XalanNamespacesStack::prefixIsPresentLocal(const XalanDOMString&    thePrefix)
 {
